@@ -38,6 +38,15 @@
 //     of Database.Flush run by dataFlushChecker.doFlush on this goroutine). Whatever failed, a crash
 //     afterwards must not lose an entry: nothing of a failed cycle may acknowledge the log unless the
 //     rows AND their metadata are durable.
+//
+// Wave 6 (compact_test.go): background kv compaction of the metadata store (namespace / metric / tag value
+// dictionaries, metric schemas) and of the shard index store (series dictionary, inverted / forward /
+// metric->series index) as an operation of the histories (between any two operations, as the last thing
+// before the crash, on the flush goroutine inside a flush sub-step), names of every kind arriving over many
+// flush cycles so that the mergers get several deltas per key, and a generated continuation of every
+// recovered node (flush cycle, compaction, rows with names which did not exist before the crash, graceful
+// restart) checked against a naive row model. TestMetadataCompactionRecovery runs the same histories with a
+// mix of operations biased to these.
 package c07
 
 import (
@@ -125,11 +134,13 @@ var (
 
 // entry i contributes 4^i to the sum field of one fixed slot of the series acc{k=v}: the base-4
 // digits of the stored sum tell how many times each entry was applied. It also writes a row of
-// its own (metric m<i%3>, tag host=h<i>, field f<i%2>) so that metadata matters.
+// its own (names: namesOf - metric m<i%3>, tags host=h<i> and t<i%4>=x, field f<i%2>; later entries
+// also bring a namespace / metric / field / tag key of their own) so that metadata matters.
 func entryMetrics(i, ref int) []*protoMetricsV1.Metric {
 	// ref == i: the entry introduces its own names (metric/tag key/tag value/field/series);
 	// ref < i: the entry writes into the series introduced by entry ref (no new name).
 	j := ref
+	nm := namesOf(j)
 	return []*protoMetricsV1.Metric{
 		{
 			Name: "acc", Timestamp: baseTime,
@@ -137,9 +148,10 @@ func entryMetrics(i, ref int) []*protoMetricsV1.Metric {
 			SimpleFields: []*protoMetricsV1.SimpleField{{Name: "s", Type: protoMetricsV1.SimpleFieldType_DELTA_SUM, Value: math.Pow(4, float64(i))}},
 		},
 		{
-			Name: fmt.Sprintf("m%d", j%3), Timestamp: baseTime + int64(i)*10_000,
-			Tags:         []*protoMetricsV1.KeyValue{{Key: "host", Value: fmt.Sprintf("h%d", j)}, {Key: fmt.Sprintf("t%d", j%4), Value: "x"}},
-			SimpleFields: []*protoMetricsV1.SimpleField{{Name: fmt.Sprintf("f%d", j%2), Type: protoMetricsV1.SimpleFieldType_DELTA_SUM, Value: float64(i + 1)}},
+			Namespace: nm.ns,
+			Name:      nm.metric, Timestamp: baseTime + int64(i)*10_000,
+			Tags:         []*protoMetricsV1.KeyValue{{Key: "host", Value: nm.host}, {Key: nm.tagKey, Value: "x"}},
+			SimpleFields: []*protoMetricsV1.SimpleField{{Name: nm.field, Type: protoMetricsV1.SimpleFieldType_DELTA_SUM, Value: float64(i + 1)}},
 		},
 	}
 }
@@ -222,6 +234,10 @@ type world struct {
 	faultWindows []int // an operation of a flush sub-step failed
 	imageTags    map[int][]string
 	flushRanges  [][2]int // positions in im.Points of every flush sub-step
+	// wave 6: kv compaction of the metadata / index families (compact_test.go)
+	book    *compactBook
+	group   string // test the history belongs to (evidence group)
+	profile string // "" or "compaction": histories biased to name-introducing flush cycles and compactions, no I/O faults
 }
 
 // appendSpec holds the draws of one append (drawn before the operation which performs it runs).
@@ -236,6 +252,8 @@ type appendSpec struct {
 type racePoint struct {
 	at    int
 	steps []appendSpec
+	// the compaction job of metadata / index kv families (a goroutine of the kv job scheduler) also runs here
+	compact bool
 }
 
 // faultPlan: the at-th operation of kind op of the flush sub-step fails.
@@ -305,6 +323,17 @@ func (w *world) openLog(li int) *logSt {
 	}
 	leader := w.leaders[li]
 	lg := &logSt{leader: leader, path: walDir(config.GlobalStorageConfig().WAL, w.db, leader), removedSeq: -1}
+	// The creation of a fresh log directory (queue pages, consumer group of the local replicator) is no crash
+	// point of the histories: between two operations nothing is imaged anyway, and a log which is opened by an
+	// append that races INSIDE a flush sub-step must not be imaged either. A crash inside the creation leaves
+	// zero-filled meta / consumer-group pages which the next open reads as "one record appended" resp.
+	// "position 0 acknowledged" (DESIGN.md 7.4, observation on pkg/queue: first open of a fresh queue dies
+	// before its stores) - the log holds no record at that time, which is outside what C07 states.
+	if w.im.Active {
+		w.im.Active = false
+		w.classes["log-created-inside-flush-sub-step-(creation-is-no-crash-point)"]++
+		defer func() { w.im.Active = true }()
+	}
 	var err error
 	lg.fq, err = queue.NewFanOutQueue(lg.path, 0)
 	if err != nil {
@@ -496,6 +525,12 @@ func (w *world) replicaCore(inside string, li int) bool {
 		w.d8Exposed[ref] = true
 	}
 	if !w.bad(e) {
+		if len(w.namesApplied) == 0 {
+			w.book.note("default-ns", "acc", "s", [][2]string{{"k", "v"}})
+		}
+		if !w.namesApplied[ref] {
+			w.book.noteOwner(ref)
+		}
 		w.namesApplied[ref] = true
 	}
 	lg.applied++
@@ -586,6 +621,7 @@ func drawRacePlan(t *rapid.T) []racePoint {
 		for k, steps := 0, rapid.IntRange(1, 3).Draw(t, "raceSteps"); k < steps; k++ {
 			rp.steps = append(rp.steps, drawAppendSpec(t))
 		}
+		rp.compact = rapid.IntRange(0, 2).Draw(t, "raceCompaction") == 0
 		plan = append(plan, rp)
 	}
 	return plan
@@ -630,6 +666,7 @@ func (w *world) enterSubStep(step string) {
 	w.subStep, w.race, w.raceSeen = step, w.plans[step], 0
 	w.flushRanges = append(w.flushRanges, [2]int{len(w.im.Points), len(w.im.Points)})
 	w.logf("  (%s)", step)
+	w.book.freeze(step)
 	w.begin(step)
 	if len(w.race) > 0 {
 		w.classes["flush-substep-with-race-plan"]++
@@ -644,6 +681,14 @@ func (w *world) leaveSubStep() {
 	w.flushRanges[len(w.flushRanges)-1][1] = len(w.im.Points)
 	if w.faultFired == "" || w.fault == nil || w.fault.step != w.subStep {
 		delete(w.stale, w.subStep)
+		w.noteFlushed(w.subStep)
+	}
+}
+
+// noteFlushed: a metadata / index flush completed (classification of the later compactions only).
+func (w *world) noteFlushed(step string) {
+	if w.book.flushed(step) > 0 {
+		w.classes[step+"-which-wrote-new-names"]++
 	}
 }
 
@@ -707,6 +752,10 @@ func (w *world) seam(op string) {
 				w.replicaCore(w.subStep, pl[sp.log%len(pl)])
 			}
 		}
+		if rp.compact {
+			// the compaction goroutine runs to completion while the flush goroutine is between two writes
+			w.opCompactKV(fmt.Sprintf(" [inside %s, seam event %d]", w.subStep, n))
+		}
 		w.racing = false
 		w.begin(w.subStep) // the sub-step goes on (new operation index: the number of appended entries moved)
 	}
@@ -722,10 +771,11 @@ func (w *world) opFlushStep() {
 	var err error
 	name := []string{"flushMeta", "flushIndex", "flushFamily"}[w.cycle]
 	w.race, w.raceSeen = drawRacePlan(w.t), 0
-	w.fault, w.faultSeen, w.faultFired = drawFaultPlan(w.t, name, map[string]int{"flushMeta": 30, "flushIndex": 10, "flushFamily": 8}[name]), 0, ""
+	w.fault, w.faultSeen, w.faultFired = drawFaultPlan(w.t, name, w.faultPercent(map[string]int{"flushMeta": 30, "flushIndex": 10, "flushFamily": 8}[name])), 0, ""
 	w.logf("%s", name)
 	from := len(w.im.Points)
 	defer func() { w.flushRanges = append(w.flushRanges, [2]int{from, len(w.im.Points)}) }()
+	w.book.freeze(name)
 	w.begin(name)
 	w.subStep = name
 	switch w.cycle {
@@ -757,6 +807,7 @@ func (w *world) opFlushStep() {
 		w.classes["flush-substep-returns-nil-after-fault"]++
 	} else {
 		delete(w.stale, name)
+		w.noteFlushed(name)
 	}
 	if w.cycle == 2 && w.faultFired == "" {
 		w.classes["flush-cycle-completed"]++
@@ -772,12 +823,33 @@ func (w *world) opFlushJob() {
 	if w.cycle != 0 {
 		w.t.Skip("a flush job of the database is in flight") // dbInFlushing: one job per database
 	}
-	w.plans = map[string][]racePoint{}
-	for _, s := range []string{"flushMeta", "flushIndex", "flushFamily"} {
-		w.plans[s] = drawRacePlan(w.t)
+	w.flushJob(false)
+}
+
+// faultPercent: histories of the compaction profile have no I/O faults.
+func (w *world) faultPercent(p int) int {
+	if w.profile == "compaction" {
+		return 0
 	}
-	fstep := rapid.SampledFrom([]string{"flushMeta", "flushMeta", "flushMeta", "flushMeta", "flushIndex", "flushFamily"}).Draw(w.t, "faultStep")
-	w.fault, w.faultSeen, w.faultFired = drawFaultPlan(w.t, fstep, 45), 0, ""
+	return p
+}
+
+// flushJob: plain = nothing races with the job and no operation fails.
+func (w *world) flushJob(plain bool) {
+	w.plans = map[string][]racePoint{}
+	w.fault, w.faultSeen, w.faultFired = nil, 0, ""
+	if !plain {
+		for _, s := range []string{"flushMeta", "flushIndex", "flushFamily"} {
+			w.plans[s] = drawRacePlan(w.t)
+		}
+		fstep := rapid.SampledFrom([]string{"flushMeta", "flushMeta", "flushMeta", "flushMeta", "flushIndex", "flushFamily"}).Draw(w.t, "faultStep")
+		w.fault = drawFaultPlan(w.t, fstep, w.faultPercent(45))
+	}
+	if plain && rapid.Bool().Draw(w.t, "compactionInsideTheFlushJob") {
+		// nothing but the compaction goroutine of the kv job scheduler runs while one sub-step of the job writes
+		s := rapid.SampledFrom([]string{"flushMeta", "flushMeta", "flushIndex", "flushIndex", "flushFamily"}).Draw(w.t, "compactionInside")
+		w.plans[s] = []racePoint{{at: rapid.SampledFrom([]int{0, 1, 2, 3, 4, 6, 9}).Draw(w.t, "raceAt"), compact: true}}
+	}
 	w.logf("flushJob (dataFlushChecker.doFlush)")
 	d, _ := w.n.Engine.GetDatabase(w.db)
 	w.begin("flushJob")
@@ -1017,11 +1089,9 @@ func (w *world) recoverImage(p crash.Point) {
 		}
 	}
 	// 4. read the node through the production query path
-	c := node.NewCluster()
-	defer c.Close()
-	c.AddLeaf("leaf:1", n.Engine, "")
-	c.SetLayout(w.db, node.DBOption(timeutil.Interval(10_000)), map[string][]models.ShardID{"leaf:1": {0}})
-	tr := "time>='2023-05-01 10:00:00' and time<='2023-05-01 10:59:59'"
+	c := newCluster(n, w.db)
+	defer func() { c.Close() }()
+	tr := timeRange
 	anyRemoved := false
 	for _, im := range imgs {
 		im.visible = int(im.logApp) + 1 // records in the recovered log (a crash inside an append may or may not show it)
@@ -1067,13 +1137,14 @@ func (w *world) recoverImage(p crash.Point) {
 			}
 		}
 	}
+	sum := 0.0
 	if writes > 0 {
 		rs, err := c.Query(w.db, "select s from acc where "+tr)
 		if err != nil {
 			w.fatalf("image %s: query acc: %v;%s", p, err, describe())
 		}
 		res := node.Canon(rs)
-		sum := res[""]["s"][baseTime]
+		sum = res[""]["s"][baseTime]
 		d := digits(sum)
 		for i := range w.entries {
 			im := imageOf[i]
@@ -1113,20 +1184,20 @@ func (w *world) recoverImage(p crash.Point) {
 		if w.d8Exposed[j] && ev.Known(sigD8) {
 			continue
 		}
-		q := fmt.Sprintf("select f%d from m%d where host='h%d' and %s group by host,t%d", j%2, j%3, j, tr, j%4)
+		nm := namesOf(j)
+		q, key := nm.query(tr)
 		rs, err := c.Query(w.db, q)
 		if err != nil {
 			w.fatalf("image %s: entry %d (log of leader %d, sequence %d): query %q fails: %v;%s", p, i, im.lg.leader, w.entries[i].seq, q, err, describe())
 		}
 		res := node.Canon(rs)
-		key := fmt.Sprintf("host=h%d,t%d=x", j, j%4)
-		got, ok := res[key][fmt.Sprintf("f%d", j%2)][baseTime+int64(i)*10_000]
+		got, ok := res[key][nm.field][baseTime+int64(i)*10_000]
 		if !ok || got != float64(i+1) {
 			dbg := ""
 			for _, q2 := range []string{
-				fmt.Sprintf("select f%d from m%d where %s", j%2, j%3, tr),
-				fmt.Sprintf("select f%d from m%d where %s group by host", j%2, j%3, tr),
-				fmt.Sprintf("select f%d from m%d where host='h%d' and %s", j%2, j%3, j, tr),
+				fmt.Sprintf("select %s from %s where %s", nm.field, nm.from(), tr),
+				fmt.Sprintf("select %s from %s where %s group by host", nm.field, nm.from(), tr),
+				fmt.Sprintf("select %s from %s where host='%s' and %s", nm.field, nm.from(), nm.host, tr),
 			} {
 				rs2, err2 := c.Query(w.db, q2)
 				dbg += fmt.Sprintf("\n   debug %q -> %v err=%v", q2, node.Canon(rs2), err2)
@@ -1179,6 +1250,24 @@ func (w *world) recoverImage(p crash.Point) {
 		classes = append(classes, "image-with-logs-of-several-leaders-and-records-to-replay")
 	}
 	classes = append(classes, w.imageTags[p.Seq]...)
+	// 5. the node lives on: flush cycles, kv compaction, names which did not exist before the crash, restart
+	// (always for the image of the idle node at the end of the history, else for every other image;
+	// C07_NO_CONTINUATION=1 switches it off - only used to measure what the compactions inside the histories detect alone)
+	if writes > 0 && os.Getenv("C07_NO_CONTINUATION") == "" && (p.FSOp == "endOfHistory" || p.FSOp == "logRemoved" || rapid.Bool().Draw(w.t, "continueAfterRecovery")) {
+		env := &postEnv{p: p, root: filepath.Join(p.Dir, "data", w.db), visible: isVisible, hasSum: true, sum: sum, describe: describe,
+			node: func() *node.Node { return n },
+			query: func(q string) (node.Result, error) {
+				rs, err := c.Query(w.db, q)
+				return node.Canon(rs), err
+			},
+			restart: func() {
+				c.Close()
+				w.restartRecovered(p, &n, &walMgr, imgs, describe)
+				c = newCluster(n, w.db)
+			},
+		}
+		classes = append(classes, w.postRecovery(env)...)
+	}
 	ev.Case("crash-points", strings.Join(w.ops, ";")+"|"+p.String(), nt, uniq(classes), nil)
 }
 
@@ -1193,12 +1282,13 @@ func uniq(in []string) (out []string) {
 	return out
 }
 
-func runHistory(t *rapid.T, thorough bool) {
+func runHistory(t *rapid.T, thorough bool, group, profile string) {
 	dir, err := os.MkdirTemp("", "c07-")
 	if err != nil {
 		t.Fatalf("harness: %v", err)
 	}
-	w := &world{t: t, dir: filepath.Join(dir, "node"), db: fmt.Sprintf("c07db%d", dbSeq.Add(1)), classes: map[string]int{}, d8Exposed: map[int]bool{}, namesApplied: map[int]bool{}, stale: map[string]bool{}, thorough: thorough, imageTags: map[int][]string{}}
+	w := &world{t: t, dir: filepath.Join(dir, "node"), db: fmt.Sprintf("c07db%d", dbSeq.Add(1)), classes: map[string]int{}, d8Exposed: map[int]bool{}, namesApplied: map[int]bool{}, stale: map[string]bool{}, thorough: thorough, imageTags: map[int][]string{},
+		book: newCompactBook(), group: group, profile: profile}
 	w.im = &crash.Imager{Root: w.dir, OutDir: filepath.Join(dir, "img")}
 	w.leaders = rapid.SampledFrom(leaderSets).Draw(t, "leadersOfTheFamilyLogs")
 	w.logs = make([]*logSt, len(w.leaders))
@@ -1283,20 +1373,39 @@ func runHistory(t *rapid.T, thorough bool) {
 		t.Fatalf("harness: family: %v", err)
 	}
 
-	t.Repeat(map[string]func(*rapid.T){
-		"appendLog":      func(t *rapid.T) { w.t = t; w.opAppend() },
-		"appendLog2":     func(t *rapid.T) { w.t = t; w.opAppend() },
-		"replicaStep":    func(t *rapid.T) { w.t = t; w.opReplicaStep() },
-		"replicaStep2":   func(t *rapid.T) { w.t = t; w.opReplicaStep() },
-		"replicaCatchUp": func(t *rapid.T) { w.t = t; w.opReplicaCatchUp() },
-		"flushStep":      func(t *rapid.T) { w.t = t; w.opFlushStep() },
-		"flushStep2":     func(t *rapid.T) { w.t = t; w.opFlushStep() },
-		"flushJob":       func(t *rapid.T) { w.t = t; w.opFlushJob() },
-		"appendSkipped":  func(t *rapid.T) { w.t = t; w.opAppendSkipped() },
-		"logGC":          func(t *rapid.T) { w.t = t; w.opLogGC() },
-	})
+	ops := map[string]func(*rapid.T){
+		"appendLog":          func(t *rapid.T) { w.t = t; w.opAppend() },
+		"appendLog2":         func(t *rapid.T) { w.t = t; w.opAppend() },
+		"replicaStep":        func(t *rapid.T) { w.t = t; w.opReplicaStep() },
+		"replicaStep2":       func(t *rapid.T) { w.t = t; w.opReplicaStep() },
+		"replicaCatchUp":     func(t *rapid.T) { w.t = t; w.opReplicaCatchUp() },
+		"flushStep":          func(t *rapid.T) { w.t = t; w.opFlushStep() },
+		"flushStep2":         func(t *rapid.T) { w.t = t; w.opFlushStep() },
+		"flushJob":           func(t *rapid.T) { w.t = t; w.opFlushJob() },
+		"appendSkipped":      func(t *rapid.T) { w.t = t; w.opAppendSkipped() },
+		"logGC":              func(t *rapid.T) { w.t = t; w.opLogGC() },
+		"compactKV":          func(t *rapid.T) { w.t = t; w.opCompactKV("") },
+		"namesAndFlushCycle": func(t *rapid.T) { w.t = t; w.opNamesAndFlushCycle() },
+	}
+	if profile == "compaction" {
+		// histories in which names of every kind arrive over many metadata / index flush cycles and the
+		// compaction job of their kv families runs often
+		delete(ops, "appendSkipped")
+		delete(ops, "replicaStep2")
+		ops["compactKV2"] = ops["compactKV"]
+		ops["compactKV3"] = ops["compactKV"]
+		ops["namesAndFlushCycle2"] = ops["namesAndFlushCycle"]
+		ops["namesAndFlushCycle3"] = ops["namesAndFlushCycle"]
+		ops["namesAndFlushCycle4"] = ops["namesAndFlushCycle"]
+	}
+	t.Repeat(ops)
 	w.t = t
 	w.fault = nil
+
+	// the compaction job may be the last thing the node does before it dies
+	if rapid.IntRange(0, 3).Draw(t, "compactionBeforeTheCrash") == 0 {
+		w.opCompactKV(" (last operation before the crash)")
+	}
 
 	// the periodic log-removal task (WriteAheadLogManager garbage collection): Partition.IsExpire()
 	// syncs + collects the log and says whether the partition of this (long past) family may be
@@ -1453,9 +1562,19 @@ func runHistory(t *rapid.T, thorough bool) {
 					boundary = append(boundary, i)
 				}
 				hot = append(hot, i)
-			case strings.HasPrefix(name, "replicaStep"), name == "logGC", strings.HasPrefix(name, "appendLog@"):
+			case strings.HasPrefix(name, "replicaStep"), name == "logGC", strings.HasPrefix(name, "appendLog@"), name == "compactKV":
 				hot = append(hot, i)
 			}
+		}
+		// crash inside / right after the compaction job of a metadata / index kv family
+		var cpts []int
+		for _, i := range withDir {
+			if pts[i].OpName == "compactKV" {
+				cpts = append(cpts, i)
+			}
+		}
+		for n := 0; n < 2 && len(cpts) > 0; n++ {
+			chosen[cpts[rapid.IntRange(0, len(cpts)-1).Draw(t, "compactionImage")]] = true
 		}
 		// inner boundaries: after a commit of a sub-step which is followed by another commit of the same sub-step
 		var inner []int
@@ -1491,6 +1610,20 @@ func runHistory(t *rapid.T, thorough bool) {
 		order = append(order, i)
 	}
 	sort.Ints(order)
+	for _, i := range order {
+		done := 0
+		for _, e := range w.book.ends {
+			if e <= i {
+				done++
+			}
+		}
+		if done > 0 {
+			tag(i, "image-after-kv-compaction")
+		}
+		if pts[i].OpName == "compactKV" {
+			tag(i, "image-inside-kv-compaction-job")
+		}
+	}
 	// the recovered engines share process-wide singletons with the live one: stop using the live node first
 	closeLive()
 	for _, i := range order {
@@ -1498,15 +1631,34 @@ func runHistory(t *rapid.T, thorough bool) {
 	}
 	w.im.Drop()
 	for c, n := range w.classes {
-		ev.Class("TestNodeCrashRecovery", c, n)
+		ev.Class(w.group, c, n)
 	}
-	ev.Case("TestNodeCrashRecovery", fmt.Sprint(w.leaders)+strings.Join(w.ops, ";"), len(order) > 0 && w.classes["flush-cycle-completed"] > 0, nil,
+	var hcl []string
+	if len(w.book.recs) > 0 {
+		hcl = append(hcl, "history-with-kv-compaction")
+	}
+	ev.Case(w.group, fmt.Sprint(w.leaders)+strings.Join(w.ops, ";"), len(order) > 0 && w.classes["flush-cycle-completed"] > 0, hcl,
 		map[string]any{"leaders": fmt.Sprint(w.leaders), "history": w.ops, "images_taken": len(withDir), "images_recovered": len(order)})
+	// one case per compaction which ran; non-trivial: some key of a compacted family had deltas in >= 2 of the merged files
+	for _, c := range w.book.recs {
+		ev.Case("kv-compactions", fmt.Sprintf("%s|%d", strings.Join(w.ops, ";"), c.at), c.merged > 0, c.fams,
+			map[string]any{"operation": c.desc, "keys_with_deltas_in_2_or_more_merged_files": c.merged})
+	}
 }
 
 func TestNodeCrashRecovery(t *testing.T) {
 	thorough := os.Getenv("VERIF_TIER") == "thorough"
-	rapid.Check(t, func(t *rapid.T) { runHistory(t, thorough) })
+	rapid.Check(t, func(t *rapid.T) { runHistory(t, thorough, "TestNodeCrashRecovery", "") })
+}
+
+// TestMetadataCompactionRecovery: the same histories, same crash points and same oracle with another
+// mix of operations (compaction profile): no I/O faults and no records without a write, many entries with
+// names of their own each followed by a complete flush cycle, and the compaction job of the metadata /
+// index kv families three times as often - so that the mergers of these families get keys with deltas in
+// several level-0 files (up to the >= 4 files at which the periodic job of the store starts by itself).
+func TestMetadataCompactionRecovery(t *testing.T) {
+	thorough := os.Getenv("VERIF_TIER") == "thorough"
+	rapid.Check(t, func(t *rapid.T) { runHistory(t, thorough, "TestMetadataCompactionRecovery", "compaction") })
 }
 
 var _ = bytes.Equal
